@@ -493,6 +493,14 @@ def run(tier, seed, only_c19=False):
         # request parameters of a listing -> listing (its own native twin: harness/hist_search.rs)
         from . import c09search
         obligations.append(c09search.run(tier, seed))
+        # the gRPC handlers address the store with the same key as everybody else ('public' -> '')
+        from . import c09grpc
+        gob = c09grpc.run(tier, seed)
+        if gob.get("verdict") == "violation" and native_ok:
+            path = native.write_replay(prop_id, "c09", "model", [], {"engine": "smt", "mode": "model-only", "obligation": gob["harness"], "message": gob["message"], "model": gob.get("counterexample")})
+            gob["replay_path"] = path
+            gob["replay"] = {"path": path, "outcome": "model-only", "message": "request and the key the handler builds from it"}
+        obligations.append(gob)
     hist = [h for ob in obligations for h in ob.pop("_validate", [])]
     if hist and native_ok:
         val = native_histories(prop_id, "config", "validate", hist)
